@@ -539,4 +539,219 @@ theorem secLoad_spec (c : Cls) (enc : Enc) (tr : List Trans) (ls : LoadSt) (hdrO
       exact ⟨h1, h2.of_same rfl rfl rfl rfl rfl rfl⟩
     · exact ⟨hs', hb.of_same rfl rfl rfl rfl rfl rfl⟩
 
+/-! ### segments -/
+
+/-- What holds of every segment the loader produces. -/
+structure LoadedSeg (tr : List Trans) (g : Seg) (img : Bytes) : Prop where
+  len : ∀ d, g.data = some d → d.length = g.filesz.toNat + 1
+  bytes : ∀ d, g.data = some d →
+    d.take g.filesz.toNat = slice img (dataOff tr g.offset).toNat g.filesz.toNat ∧
+    (slice img (dataOff tr g.offset).toNat g.filesz.toNat).length = g.filesz.toNat
+  ss : (tr = [] ∧ g.streamSize = BitVec.ofNat 64 img.length) ∨
+       (g.streamSize = u64max ∧ (tr = [] → seg64_load_data_skip g.stype g.filesz = true ∧ g.data = none))
+
+/-- the `clear(); seekg(off); read(size)` of `segment_impl::load_data` -/
+def segRead (st : IStream) (off size : BitVec 64) : IStream × Bytes :=
+  if size.toInt < 0 then ((st.clear.seekg off.toInt).readNeg, ([] : Bytes))
+  else (st.clear.seekg off.toInt).read size.toNat
+
+/-- re-raise the state bits the stream had before the isolated read -/
+def mergeFlags (st2 st : IStream) : IStream :=
+  { st2 with eof := st2.eof || st.eof, fail := st2.fail || st.fail }
+
+@[simp] theorem segRead_data (st off size) : (segRead st off size).1.data = st.data := by
+  unfold segRead; split <;> simp
+@[simp] theorem segRead_kind (st off size) : (segRead st off size).1.kind = st.kind := by
+  unfold segRead; split <;> simp
+
+theorem readNeg_fail (s : IStream) : s.readNeg.fail = true := by
+  unfold IStream.readNeg; split <;> rfl
+
+theorem segRead_ok (st : IStream) (off size : BitVec 64) (h : (segRead st off size).1.fail = false) :
+    (segRead st off size).2 = slice st.data off.toNat size.toNat ∧
+    (slice st.data off.toNat size.toNat).length = size.toNat := by
+  unfold segRead at h ⊢
+  by_cases hneg : size.toInt < 0
+  · rw [if_pos hneg] at h; rw [readNeg_fail] at h; exact absurd h (by decide)
+  · rw [if_neg hneg] at h ⊢
+    obtain ⟨hg, hgot, hlen⟩ := IStream.read_not_fail _ _ h
+    obtain ⟨hoff, hpos, -⟩ := IStream.seekg_good _ _ hg
+    rw [hpos, toInt_nonneg_toNat off hoff] at hgot hlen
+    simp only [IStream.seekg_data, IStream.clear_data] at hgot hlen
+    exact ⟨hgot, hlen⟩
+
+theorem segLoadData_eq (c : Cls) (tr : List Trans) (ls : LoadSt) (g : Seg) :
+    segLoadData c tr ls g =
+      (if seg64_load_data_skip g.stype g.filesz then (ls, g, true) else
+       if sec64_load_data_off_gt (dataOff tr g.offset) g.streamSize then (ls, { g with data := none }, false) else
+       if sec64_load_data_size_gt g.filesz g.streamSize (dataOff tr g.offset) then
+         (ls, { g with data := none }, false) else
+       if sec64_load_data_sizet g.filesz then (ls, { g with data := none }, false) else
+       if (!(segRead ls.st (dataOff tr g.offset) g.filesz).1.fail) = true then
+         ({ st := mergeFlags (segRead ls.st (dataOff tr g.offset) g.filesz).1 ls.st,
+            allocs := ls.allocs ++ [(sec64_load_data_alloc g.filesz).toNat] },
+          { g with data := some ((segRead ls.st (dataOff tr g.offset) g.filesz).2 ++ [0]), isLoaded := true },
+          true)
+       else
+         ({ st := mergeFlags (segRead ls.st (dataOff tr g.offset) g.filesz).1 ls.st,
+            allocs := ls.allocs ++ [(sec64_load_data_alloc g.filesz).toNat] },
+          { g with data := none }, false)) := by
+  cases c <;> rfl
+
+theorem LoadedSeg.of_same {tr img} {g g' : Seg} (h : LoadedSeg tr g img)
+    (e1 : g'.data = g.data) (e2 : g'.filesz = g.filesz) (e3 : g'.offset = g.offset)
+    (e5 : g'.streamSize = g.streamSize) (e6 : g'.stype = g.stype) : LoadedSeg tr g' img := by
+  refine ⟨?_, ?_, ?_⟩
+  · intro d hd; rw [e2]; exact h.len d (e1 ▸ hd)
+  · intro d hd; rw [e2, e3]; exact h.bytes d (e1 ▸ hd)
+  · rw [e5, e6, e1, e2]; exact h.ss
+
+/-- dropping the data pointer keeps the invariant -/
+theorem LoadedSeg.dropData {tr img} {g : Seg} (h : LoadedSeg tr g img) :
+    LoadedSeg tr { g with data := none } img := by
+  refine ⟨fun d hd => (by simp at hd), fun d hd => (by simp at hd), ?_⟩
+  rcases h.ss with h1 | ⟨h1, h2⟩
+  · exact Or.inl h1
+  · exact Or.inr ⟨h1, fun ht => ⟨(h2 ht).1, rfl⟩⟩
+
+/-- the header-side fields of a segment -/
+structure SameSegHdr (g' g : Seg) : Prop where
+  stype : g'.stype = g.stype
+  flags : g'.flags = g.flags
+  offset : g'.offset = g.offset
+  vaddr : g'.vaddr = g.vaddr
+  paddr : g'.paddr = g.paddr
+  filesz : g'.filesz = g.filesz
+  memsz : g'.memsz = g.memsz
+  align : g'.align = g.align
+  streamSize : g'.streamSize = g.streamSize
+  isLazy : g'.isLazy = g.isLazy
+
+theorem SameSegHdr.refl (g : Seg) : SameSegHdr g g := by constructor <;> rfl
+
+theorem segLoadData_spec (c : Cls) (tr : List Trans) (ls : LoadSt) (g : Seg) (img : Bytes)
+    (kind : StreamKind) (hs : StOk tr img kind ls) (hg : LoadedSeg tr g img) :
+    StOk tr img kind (segLoadData c tr ls g).1 ∧ LoadedSeg tr (segLoadData c tr ls g).2.1 img ∧
+    SameSegHdr (segLoadData c tr ls g).2.1 g := by
+  rw [segLoadData_eq]
+  by_cases h0 : seg64_load_data_skip g.stype g.filesz = true
+  · rw [if_pos h0]; exact ⟨hs, hg, SameSegHdr.refl g⟩
+  rw [if_neg h0]
+  by_cases h1 : sec64_load_data_off_gt (dataOff tr g.offset) g.streamSize = true
+  · rw [if_pos h1]; exact ⟨hs, hg.dropData, by constructor <;> rfl⟩
+  rw [if_neg h1]
+  by_cases h2 : sec64_load_data_size_gt g.filesz g.streamSize (dataOff tr g.offset) = true
+  · rw [if_pos h2]; exact ⟨hs, hg.dropData, by constructor <;> rfl⟩
+  rw [if_neg h2]
+  by_cases h4 : sec64_load_data_sizet g.filesz = true
+  · rw [if_pos h4]; exact ⟨hs, hg.dropData, by constructor <;> rfl⟩
+  rw [if_neg h4]
+  have hal : AllocOk tr img (sec64_load_data_alloc g.filesz).toNat := by
+    refine ⟨(dataOff tr g.offset).toNat, g.filesz.toNat, g_sizet_false (by simpa using h4), ?_⟩
+    intro htr hlen
+    have hle := g_size_gt_false (by simpa using h2) (g_off_gt_false (by simpa using h1))
+    rcases hg.ss with ⟨-, hss⟩ | ⟨-, hn⟩
+    · rw [hss, toNat_ofNat_len hlen] at hle; exact hle
+    · exact absurd (hn htr).1 h0
+  have hss : (tr = [] ∧ g.streamSize = BitVec.ofNat 64 img.length) ∨
+      (g.streamSize = u64max ∧ (tr = [] → seg64_load_data_skip g.stype g.filesz = true ∧
+        (none : Option Bytes) = none)) := by
+    rcases hg.ss with h | ⟨hv, hn⟩
+    · exact Or.inl h
+    · exact Or.inr ⟨hv, fun ht => ⟨(hn ht).1, rfl⟩⟩
+  have hss' : ∀ d : Option Bytes, (tr = [] ∧ g.streamSize = BitVec.ofNat 64 img.length) ∨
+      (g.streamSize = u64max ∧ (tr = [] → seg64_load_data_skip g.stype g.filesz = true ∧ d = none)) := by
+    intro d
+    rcases hg.ss with h | ⟨hv, hn⟩
+    · exact Or.inl h
+    · exact Or.inr ⟨hv, fun ht => absurd (hn ht).1 h0⟩
+  have hst : StOk tr img kind
+      { st := mergeFlags (segRead ls.st (dataOff tr g.offset) g.filesz).1 ls.st,
+        allocs := ls.allocs ++ [(sec64_load_data_alloc g.filesz).toNat] } :=
+    hs.push _ _ (by simp [mergeFlags, hs.data]) (by simp [mergeFlags, hs.kind]) hal
+  by_cases h6 : (!(segRead ls.st (dataOff tr g.offset) g.filesz).1.fail) = true
+  · rw [if_pos h6]
+    obtain ⟨hgot, hlen⟩ := segRead_ok _ _ _ (by simpa using h6)
+    rw [hs.data] at hgot hlen
+    refine ⟨hst, ⟨?_, ?_, hss' _⟩, by constructor <;> rfl⟩
+    · intro d hd
+      simp only [Option.some.injEq] at hd
+      subst hd; simp [hgot, hlen]
+    · intro d hd
+      simp only [Option.some.injEq] at hd
+      subst hd
+      refine ⟨?_, hlen⟩
+      rw [hgot]
+      exact List.take_left' hlen
+  · rw [if_neg h6]
+    exact ⟨hst, ⟨fun d hd => (by simp at hd), fun d hd => (by simp at hd), hss⟩, by constructor <;> rfl⟩
+
+theorem segGetData_eq (c : Cls) (tr : List Trans) (ls : LoadSt) (g : Seg) :
+    segGetData c tr ls g =
+      if (!g.isLoaded) = true then ((segLoadData c tr ls g).1, (segLoadData c tr ls g).2.1) else (ls, g) := rfl
+
+theorem segGetData_spec (c : Cls) (tr : List Trans) (ls : LoadSt) (g : Seg) (img : Bytes)
+    (kind : StreamKind) (hs : StOk tr img kind ls) (hg : LoadedSeg tr g img) :
+    StOk tr img kind (segGetData c tr ls g).1 ∧ LoadedSeg tr (segGetData c tr ls g).2 img ∧
+    SameSegHdr (segGetData c tr ls g).2 g := by
+  rw [segGetData_eq]
+  split
+  · exact segLoadData_spec c tr ls g img kind hs hg
+  · exact ⟨hs, hg, SameSegHdr.refl g⟩
+
+@[simp] theorem decodePhdr_data (c enc r g) : (decodePhdr c enc r g).data = g.data := by cases c <;> rfl
+@[simp] theorem decodePhdr_streamSize (c enc r g) : (decodePhdr c enc r g).streamSize = g.streamSize := by
+  cases c <;> rfl
+@[simp] theorem decodePhdr_isLoaded (c enc r g) : (decodePhdr c enc r g).isLoaded = g.isLoaded := by
+  cases c <;> rfl
+@[simp] theorem decodePhdr_isLazy (c enc r g) : (decodePhdr c enc r g).isLazy = g.isLazy := by
+  cases c <;> rfl
+
+/-- the segment object right after its program header was read (short reads keep the zeros) -/
+def segHdr (c : Cls) (enc : Enc) (tr : List Trans) (st : IStream) (hdrOff : Int) (isLazy : Bool) : Seg :=
+  decodePhdr c enc (wr (List.replicate (phdrSize c) 0) 0 (hdrRead tr st hdrOff (phdrSize c)).2)
+    { streamSize := (streamSizeOf tr st).2, isLazy := isLazy, offsetSet := true }
+
+theorem segLoad_eq (c : Cls) (enc : Enc) (tr : List Trans) (ls : LoadSt) (hdrOff : Int) (isLazy : Bool) :
+    segLoad c enc tr ls hdrOff isLazy =
+      if (!(isLazy || (segHdr c enc tr ls.st hdrOff isLazy).isLoaded)) = true then
+        segLoadData c tr { ls with st := (hdrRead tr ls.st hdrOff (phdrSize c)).1 }
+          (segHdr c enc tr ls.st hdrOff isLazy)
+      else ({ ls with st := (hdrRead tr ls.st hdrOff (phdrSize c)).1 }, segHdr c enc tr ls.st hdrOff isLazy, true) :=
+  rfl
+
+/-- a program header of which nothing was read is the `PT_NULL` one -/
+theorem decodePhdr_zero_stype (c : Cls) (enc : Enc) (g : Seg) :
+    (decodePhdr c enc (wr (List.replicate (phdrSize c) 0) 0 []) g).stype = 0 := by
+  cases c <;> cases enc <;> (simp only [decodePhdr]; decide)
+
+theorem segHdr_inv (c : Cls) (enc : Enc) (tr : List Trans) (st : IStream) (hdrOff : Int) (isLazy : Bool)
+    (img : Bytes) (hd : st.data = img) : LoadedSeg tr (segHdr c enc tr st hdrOff isLazy) img := by
+  refine ⟨fun d hd => (by simp [segHdr] at hd), fun d hd => (by simp [segHdr] at hd), ?_⟩
+  cases tr with
+  | cons t tr => exact Or.inr ⟨by simp [segHdr, streamSizeOf_cons], fun h => by cases h⟩
+  | nil =>
+    rcases streamSizeOf_nil_size st with ⟨-, h2⟩ | ⟨h1, h2⟩
+    · exact Or.inl ⟨rfl, by simp [segHdr, h2, hd]⟩
+    · refine Or.inr ⟨by simp [segHdr, h2], fun _ => ⟨?_, by simp [segHdr]⟩⟩
+      have hz : (segHdr c enc [] st hdrOff isLazy).stype = 0 := by
+        unfold segHdr
+        rw [(hdrRead_failed [] st hdrOff (phdrSize c) h1).2]
+        exact decodePhdr_zero_stype c enc _
+      rw [hz]; unfold seg64_load_data_skip; rw [Bool.or_eq_true]; left; decide
+
+/-- `segment_impl::load` establishes the invariant -/
+theorem segLoad_spec (c : Cls) (enc : Enc) (tr : List Trans) (ls : LoadSt) (hdrOff : Int)
+    (isLazy : Bool) (img : Bytes) (kind : StreamKind) (hs : StOk tr img kind ls) :
+    StOk tr img kind (segLoad c enc tr ls hdrOff isLazy).1 ∧
+    LoadedSeg tr (segLoad c enc tr ls hdrOff isLazy).2.1 img := by
+  rw [segLoad_eq]
+  have hs' : StOk tr img kind { ls with st := (hdrRead tr ls.st hdrOff (phdrSize c)).1 } :=
+    hs.setSt _ (by simp [hs.data]) (by simp [hs.kind])
+  have hg := segHdr_inv c enc tr ls.st hdrOff isLazy img hs.data
+  split
+  · obtain ⟨h1, h2, -⟩ := segLoadData_spec c tr _ _ img kind hs' hg
+    exact ⟨h1, h2⟩
+  · exact ⟨hs', hg⟩
+
 end ElfioVerif
